@@ -295,7 +295,7 @@ func parseTrace(text, dir, dst string) []call {
 		if p == dst {
 			return "dst"
 		}
-		if filepath.Dir(p) != dir {
+		if filepath.Dir(p) != dir && filepath.Dir(p) != filepath.Dir(dst) { // (Dir(dst) differs from dir for a missing parent only)
 			return "other"
 		}
 		if v, ok := names[p]; ok {
